@@ -624,6 +624,27 @@ _ITER_NEXT = ['*::Iterator::next']
 _SET_EMPTIERS = [Q.re.compile(r'::(drain|clear)$'), 'core::mem::take', 'core::mem::replace']
 
 
+def _through_refs(du, pl):
+    """`(*r).proj` with r a single-definition reference (a temporary, a `let`, the parameter of an inlined helper) -> the place
+    r points to + proj, repeatedly."""
+    for _ in range(12):
+        proj = pl.get('p') or []
+        if not proj or proj[0] != '*':
+            return pl
+        d = du.single_def(pl['l'])
+        if d is None or d[1] == 't' or d[2]['k'] != 'assign':
+            return pl
+        rv = d[2]['rv']
+        if rv['k'] == 'ref':
+            pl = {'l': rv['pl']['l'], 'p': (rv['pl'].get('p') or []) + proj[1:]}
+        elif rv['k'] == 'use' and Q.operand_place(rv['o']) is not None:
+            src = Q.operand_place(rv['o'])
+            pl = {'l': src['l'], 'p': (src.get('p') or []) + proj}
+        else:
+            return pl
+    return pl
+
+
 def _iterated_place(body, du, operand):
     """The place a loop's iterator was made from: back through `&mut iter`, moves and the adapter chain
     (`into_iter(cloned(iter(&SET)))` -> SET). None when the chain does not end in a place."""
@@ -632,12 +653,15 @@ def _iterated_place(body, du, operand):
         if o['k'] == 'call' and o['t']['a']:
             operand = o['t']['a'][0]
         elif o['k'] == 'ref':
-            pl = o['pl'] if Q.is_plain(o['pl']) else du.deref_origin(o['pl'])
+            pl = _through_refs(du, o['pl'])
             if not Q.is_plain(pl):
                 return pl
             operand = {'cp': pl}
         elif o['k'] == 'place':
-            return du.deref_origin(o['pl'])
+            pl = _through_refs(du, o['pl'])
+            if pl == o['pl']:
+                return pl
+            operand = {'cp': pl}
         elif o['k'] == 'arg':
             return {'l': o['l']}
         else:
